@@ -68,6 +68,16 @@ fn replay_verify() {
     extra.sub_proofs.push((TestRange::new(9, 12), other.sub_proofs[0].1.clone()));
     assert!(extra.verify().is_err(), "extra detached sub-proof accepted");
 
+    // a detached sub-proof inserted under the SAME key as a genuine one, before / after it (duplicated key)
+    for position in 0..honest.sub_proofs.len() {
+        for after in [0usize, 1] {
+            let mut duplicated = honest.clone();
+            let key = duplicated.sub_proofs[position].0.clone();
+            duplicated.sub_proofs.insert(position + after, (key, other.sub_proofs[position].1.clone()));
+            assert!(duplicated.verify().is_err(), "detached sub-proof sharing the key of genuine sub-proof #{position} accepted (inserted at +{after})");
+        }
+    }
+
     // invalid master proof
     let mut bad_master = honest.clone();
     bad_master.master_proof = other.master_proof.clone();
